@@ -227,6 +227,27 @@ pub fn scenarios(tier: Tier) -> Vec<LinkScenario<fn() -> Box<dyn Probe>>> {
             probe: (|| Box::new(OrderedProbe::new()) as Box<dyn Probe>) as fn() -> Box<dyn Probe>,
         });
     }
+    // a tick budget that the queue exceeds with mixed sizes: the packer skips the message that does not fit and packs a
+    // later, shorter one (message ids inside one packet are then not consecutive)
+    for dir in 0..2usize {
+        if tier == Tier::Quick && dir == 1 {
+            continue;
+        }
+        let mut cfg = LinkCfg::base(
+            &format!("2000 B per tick, 900+1200+100 dir{}", dir),
+            vec![Chan::new(0, Kind::Ordered, 100_000, 300)],
+            vec![Chan::new(0, Kind::Ordered, 100_000, 300)],
+        );
+        cfg.bytes_per_tick = 2000;
+        cfg.dt_ms = vec![100];
+        cfg.horizon = 4;
+        cfg.tail = 10;
+        cfg.script = vec![Send { tick: 0, dir, ch: 0, len: 900 }, Send { tick: 0, dir, ch: 0, len: 1200 }, Send { tick: 0, dir, ch: 0, len: 100 }];
+        out.push(LinkScenario {
+            cfg,
+            probe: (|| Box::new(OrderedProbe::new()) as Box<dyn Probe>) as fn() -> Box<dyn Probe>,
+        });
+    }
     out
 }
 
